@@ -152,7 +152,7 @@ def close(registry, filename, private=True):
                         exception('Exception instantiating default for %s:' %
                                   value._name)
                     try:
-                        lines.append('# Default value: %s\n' % x)
+                        lines.append('# Default value: %s\n' % x.serialize())
                     except Exception:
                         exception('Exception printing default value of %s:' %
                                   value._name)
